@@ -82,22 +82,30 @@ def check(rep, ctx):
             wire_of[name] = w
         # magic
         cn0, facts0 = canon_facts(p)
-        mw = cn0.term(wire_of["magic"])
-        mterm = ("eq", ("unpack", ">b", mw, 0), ("k", MAGIC))
+
+        def U(name, fmt, canon=False):
+            """The value term of a header field: unpack of its own read, or code i of the several-field read it was part of."""
+            w_ = wire_of[name]
+            if isinstance(w_, tuple) and w_[:1] == ("part",):
+                t_ = ("unpack", B["multi"][w_[1]], w_[1], w_[2])
+            else:
+                t_ = ("unpack", fmt, w_, 0)
+            return cn0.term(t_) if canon else t_
+        mterm = ("eq", U("magic", ">b", True), ("k", MAGIC))
         has_true = any(f[0] == mterm and f[1] for f in facts0)
         bad = [q for q in B["paths"] if any(f[0] == mterm and not f[1] for f in canon_facts(q)[1])]
         rep.check(R_M, has_true and bad and all(q.outcome == "raise" for q in bad), construct=fn.ref, stmt="magic_byte != RecordBatch.magic",
                   message="the magic byte is not compared with 2, or a different value does not raise", file=file, line=fn.node.lineno)
         # crc
         cw = wire_of["crc"]
-        crc_facts = [f for f in p.facts if f[0][0] == "eq" and contains(f[0], ("unpack", ">I", cw, 0)) and contains(f[0], "crc32c")]
+        crc_facts = [f for f in p.facts if f[0][0] == "eq" and contains(f[0], U("crc", ">I")) and contains(f[0], "crc32c")]
         problems = []
         region = None
         if len(crc_facts) != 1 or not crc_facts[0][1]:
             problems.append("the stored CRC is not compared with crc32c of the data on the accepting path")
         else:
             t = crc_facts[0][0]
-            other = t[2] if contains(t[1], ("unpack", ">I", cw, 0)) else t[1]
+            other = t[2] if contains(t[1], U("crc", ">I")) else t[1]
             if not (isinstance(other, tuple) and other[0] == "crc32c"):
                 problems.append(f"CRC compared with {show_term(other)}")
             else:
@@ -112,7 +120,7 @@ def check(rep, ctx):
                     uid = region[1][1]
                     allocs = [e for e in p.effects if e[0] == "alloc" and getattr(e[1], "uid", None) == uid]
                     filled = allocs[0][3] if len(allocs) == 1 else None
-                    bl_ = ("unpack", ">i", wire_of["batch_length"], 0)
+                    bl_ = U("batch_length", ">i")
                     _t = lambda x_: x_ if isinstance(x_, tuple) else term_of(x_)
                     src_reads = [e for e in p.effects if e[0] == "read" and filled is not None and _t(e[3]) == _t(filled)]
                     writes = [e for e in p.effects if e[0] in ("write", "wvarint") and getattr(e[1], "uid", None) == uid]
@@ -136,7 +144,7 @@ def check(rep, ctx):
                     if pos != crc_end or attr_pos != crc_end:
                         problems.append(f"the checksummed region starts at offset {pos} of the batch buffer, the attributes field at {attr_pos}, "
                                         f"the CRC field ends at {crc_end}")
-                    bl = ("unpack", ">i", wire_of["batch_length"], 0)
+                    bl = U("batch_length", ">i")
                     lin = linear(size[1], bl)
                     if lin != (1, -crc_end):
                         problems.append(f"the checksummed region has length {show_term(size[1])}, expected batch_length - {crc_end}")
@@ -152,15 +160,15 @@ def check(rep, ctx):
                   message="; ".join(problems), file=file, line=fn.node.lineno)
         # batch buffer = read(batch_length) of the source
         outer = [x for x in raws if x[0] == "P0"]
-        bl = ("unpack", ">i", wire_of["batch_length"], 0)
+        bl = U("batch_length", ">i")
         rep.check(R_C, len(outer) == 1 and outer[0][1][1] == bl, construct=fn.ref, stmt="buffer.read(batch_length)",
                   message="the batch body is not obtained by reading batch_length bytes after the batchLength field", file=file,
                   line=fn.node.lineno, instance="outer")
-        rep.check(R_C, B["repeat"] is not None and B["repeat"][1] == ("unpack", ">i", wire_of["count"], 0), construct=fn.ref,
+        rep.check(R_C, B["repeat"] is not None and B["repeat"][1] == U("count", ">i"), construct=fn.ref,
                   stmt="for _ in range(num_records)", message="records are not read `count` times", file=file, line=fn.node.lineno, instance="count-loop")
         # acceptance: the record count alone never makes a batch malformed (zero records is a well-formed batch)
         from ..grammar import eval_int_term
-        cnt_c = ("unpack", ">i", cn0.term(wire_of["count"]), 0)
+        cnt_c = U("count", ">i", True)
 
         def count_only(t):
             """Rewrite a condition on the record list / count into a condition on X = count, or None."""
@@ -212,8 +220,8 @@ def check(rep, ctx):
             t_ = fq[-1][0] if fq else None
             if t_ is not None and count_only(t_) is not None and contains(count_only(t_), ("X",)):
                 continue  # the count-only rule above reports it
-            maxw_c = ("unpack", ">q", cn0.term(wire_of["max_timestamp"]), 0)
-            attw_c = ("unpack", ">h", cn0.term(wire_of["attributes"]), 0)
+            maxw_c = U("max_timestamp", ">q", True)
+            attw_c = U("attributes", ">h", True)
             if t_ is not None and contains(t_, maxw_c) and any(contains(f_[0], attw_c) and contains(f_[0], ("k", 8)) for f_ in fq):
                 continue  # CreateTime batches only: maxTimestamp is by definition the largest record timestamp
             rep.check(R_A, False, construct=fn.ref, stmt=stmt_at(ctx, site_) or site_,
@@ -225,8 +233,8 @@ def check(rep, ctx):
         # decided by comparing a record with maxTimestamp is justified only for CreateTime batches (attributes bit 3 clear), where
         # maxTimestamp is by definition the largest record timestamp; under LogAppendTime it is the broker's clock.
         if B["repeat"] is not None:
-            maxw = ("unpack", ">q", wire_of["max_timestamp"], 0)
-            attw = ("unpack", ">h", wire_of["attributes"], 0)
+            maxw = U("max_timestamp", ">q")
+            attw = U("attributes", ">h")
             seen_acc = set()
             for facts_, effs_, out_, val_ in B["repeat"][2]:
                 if out_ != "raise" or not facts_:
